@@ -1,6 +1,6 @@
 """C18 configuration for ./check (see checks/propcfg.py for the keys)."""
 CFG = {
-    "modules": ["VaxisModel.Props.C18", "VaxisModel.Props.C18Bytes", "VaxisModel.Witness.F118"],
+    "modules": ["VaxisModel.Props.C18", "VaxisModel.Props.C18Bytes", "VaxisModel.Props.C18Links", "VaxisModel.Witness.F118"],
     "extractors": ["C07", "C18", "C02"],
     "drivers": ["C18"],
     "stateful": False,
@@ -15,32 +15,40 @@ CFG = {
             "every truncation of the extended-colour forms, random parameter lists (with non-numeric junk for "
             "NewStyledString), all through real strings (and the real ansi parser) into ParseStyledString, "
             "NewStyledString and the emulator pen. rt: random cell sequences and single-field transitions through "
-            "both codecs. distinct = distinct op line",
-    "trusted_base": ["A-concat: the ansi parser / uniseg split the concatenated string back into the SGR sequences and the "
-                     "graphemes it was built from (graphemes are opaque tokens in the model; exercised by running the real "
-                     "functions on real strings)",
-                     "string level of NewStyledString (split on ; and :, strconv.Atoi, exact string case labels) and the "
-                     "parser's decimal accumulation are executable driver code validated by correspondence only",
+            "both codecs. Round 2: encb (exact producer strings), decb (both string parsers on exact strings with the uniseg cluster table: half of all dec "
+            "cells|ss cases incl. junk parameter texts, the strings of a third of the rt cases and of all rtl cases), rtl / encbl (cells with hyperlinks: "
+            "4 URLs incl. one with ; and non-ASCII, parameters a function of the URL). distinct = distinct op line",
+    "trusted_base": ["A-concat as the explicit hypothesis TextOK of the byte-level theorems: every grapheme is non-empty, starts with a rune >= 0x20 and is one "
+                     "grapheme cluster (uniseg oracle cl) of the text that follows it; checked per case by the decb stream (real functions on the real "
+                     "strings, cluster table from the real uniseg)",
+                     "the reader side of the ansi parser (bufio, UTF-8 decoding, Parser.print's look-ahead inside the buffer) is C02/C08's ParserIO model; "
+                     "here a Print swallows the oracle's cluster of the remaining runes. The automaton itself is C02's model (hand table proved equal to "
+                     "the regenerated one)",
                      "Spec.sgr (Spec/Sgr.lean, written from ECMA-48 / xterm ctlseqs) as the meaning of SGR; "
                      "shown / shownCaps (Model/Sgr.lean) as the terminal-level meaning of a vaxis Style",
-                     "extractor cmd/C18: SGR templates parsed from the string constants by the extractor (fails closed)"],
+                     "extractor cmd/C18 for labels / arities / producer call sequences (fails closed); the SGR templates it parses are no longer trusted: "
+                     "every template is proved to be what its regenerated format string prints (Lemmas.SgrBytes.b_*)"],
     "assumptions": ["styles are well formed: colours built by IndexColor/RGBColor or default, attribute mask over the seven "
-                    "defined bits, underline style 0..5, no hyperlink; graphemes non-empty and self-delimiting",
+                    "defined bits, underline style 0..5; hyperlinks are not in the model's Style (theorems are about cells without hyperlinks)",
                     "SGR parameters are < 2^63 (the ansi parser's int accumulation does not overflow)"],
-    "level_text": "SGR codecs and producer/consumer agreement: for all attribute-mask pairs (per-bit proof), all colours and "
-                  "underline styles, all cell sequences: the sequences EncodeCells / StyledString.Encode / render write mean "
-                  "(under Spec.sgr) exactly the next style (attr_delta, pen_delta_correct_*, encoded_shows_*, "
-                  "render_frame_shows); every producible sequence is understood as the spec says by parseSGR, the embedded "
-                  "terminal and NewStyledString (consumer_refines_spec_*, producers_consumers_agree), with decide-checked "
-                  "label coverage over the regenerated case labels; parse∘encode = id for both codecs on token sequences "
-                  "(roundtrip_cells, roundtrip_ss) and the pen is reset at the end (ends_reset_*); no consumer panics on any "
-                  "list of non-empty parameter lists (sgr_total, sgr_total_ss).",
-    "level_note": "Proved for all inputs on the model (38 theorems, axioms propext/Classical.choice/Quot.sound only). False of "
-                  "the current code and proved so: NewStyledString on the legacy semicolon colour forms (F118, Witness/F118, "
-                  "known finding). Fixed in /repo: F48 (NewStyledString case 59), F35 (emulator case 59). Validated by "
-                  "correspondence only: byte level (format strings → parameter lists through the real ansi parser; string "
-                  "splitting / Atoi of NewStyledString), grapheme segmentation (A-concat), what each handled label does "
-                  "(the set of labels and arities is extracted). Modelled not verified: hyperlinks (OSC 8) are left out; "
-                  "cell widths are not compared.",
+    "level_text": "SGR codecs and producer/consumer agreement, on tokens and on BYTES: for all attribute-mask pairs (per-bit proof), all colours and "
+                  "underline styles, all cell sequences: the sequences EncodeCells / StyledString.Encode / render write mean (under Spec.sgr) exactly "
+                  "the next style (attr_delta, pen_delta_correct_*, encoded_shows_*, render_frame_shows); every producible sequence, colon forms and "
+                  "legacy semicolon forms, is understood as the spec says and identically by parseSGR, the embedded terminal and NewStyledString "
+                  "(consumer_refines_spec_*, producers_consumers_agree — unconditional since the F118 repair — producers_consumers_agree_all), with "
+                  "decide-checked label coverage over the regenerated case labels; parse∘encode = id for both codecs and both cross directions "
+                  "(roundtrip_cells, roundtrip_ss, roundtrip_cells_via_ss, roundtrip_ss_via_cells), pen reset at the end (ends_reset_*); no consumer "
+                  "panics on any list of non-empty parameter lists. Byte level (Props/C18Bytes): the regenerated format strings printed with %d are "
+                  "the canonical printing of the templates (format_strings_print_templates, delta_bytes_eq, encodeCells_bytes_eq), C02's parser model "
+                  "reads every producible sequence back as exactly its parameter list (sgr_bytes_parse, composing csi_roundtrip), NewStyledString's own "
+                  "Cut/Split/Atoi does too (sgr_bytes_split), hence ParseStyledString(EncodeCells cs) = cs and NewStyledString(Encode cs) = cs over "
+                  "List Nat (roundtrip_cells_bytes, roundtrip_ss_bytes, roundtrip_cross_bytes, producers_consumers_agree_bytes).",
+    "level_note": "Proved for all inputs on the model (64 theorems, axioms propext/Classical.choice/Quot.sound only). Fixed in /repo: F48, F35 (round 1), "
+                  "F118 (NewStyledString reads the legacy semicolon colour forms; witness of the old behaviour kept in Witness/F118), F119 (NewStyledString "
+                  "reads OSC 8 instead of turning it into cells). Validated by correspondence only: that the byte-level model is the code (encb: exact "
+                  "producer strings; decb: both string parsers on exact strings incl. junk parameter texts, with the uniseg cluster table), grapheme "
+                  "segmentation (hypothesis TextOK), what each handled label does (the set of labels and arities is extracted). Outside the theorems: "
+                  "hyperlinks (the model's Style has no hyperlink fields; that graphemes and SGR styles survive hyperlinks and that NewStyledString "
+                  "restores them is an oracle on the real code, op rtl); cell widths (not in the property text; re-measured by the parsers).",
     "timeout": 1800,
 }
